@@ -417,6 +417,56 @@ func init() {
 					}
 				}
 			}
+			// session resumption across transports: ONE server (one tls.Config, so its session tickets stay valid) whose
+			// certificate chains to the good CA only; transport X (trusting the good CA) completes a dial and reads once
+			// (the tickets are delivered after the handshake); transport Y of the same process, trusting ONLY the other
+			// CA, then dials the same host name: it must be refused although a resumable session for that name exists
+			{
+				leaf := mkLeaf("valid", kit, now)
+				shared := &tls.Config{Certificates: []tls.Certificate{leaf}, Time: time.Now}
+				d := &memDialer{serve: func(conn net.Conn) {
+					srv := tls.Server(conn, shared)
+					if srv.Handshake() == nil {
+						_, _ = srv.Write([]byte{0xc0})
+					}
+					buf := make([]byte, 1)
+					_, _ = srv.Read(buf)
+				}}
+				mk := func(pem []byte) *ConnectionTransportTLS {
+					return &ConnectionTransportTLS{srvRemote: NewFixedRemote("good.example.com:443"), maxFrameLength: 1 << 20,
+						logFactory: quietLogFactory(), dialable: d, rootCerts: pem,
+						log: newConnectionLogUnstructured(quietOut{}, "T")}
+				}
+				x := mk(kit.caPEM)
+				_, errX := x.Dial(context.Background())
+				if errX == nil {
+					buf := make([]byte, 1)
+					_, _ = x.conn.Read(buf)
+				}
+				y := mk(kit.otherCAPEM)
+				_, errY := y.Dial(context.Background())
+				created := 0
+				y.mutex.Lock()
+				if y.stagedTransport != nil || y.transport != nil || y.conn != nil {
+					created = 1
+				}
+				y.mutex.Unlock()
+				outY := "ok"
+				if errY != nil {
+					outY = "fail"
+				}
+				n++
+				c.note("tls resumption-across-transports firstdial=%v", errX == nil)
+				c.op("tlsdial otherca handshake 0")
+				c.res("%s created=%d elapsed=0", outY, created)
+				x.Close()
+				y.Close()
+				for _, sc := range d.conns {
+					sc.Close()
+					sc.peerEOF()
+				}
+				synctest.Wait()
+			}
 			fmt.Printf("STAT tls_cases %d\n", n)
 			c.ops.Flush()
 			c.out.Flush()
